@@ -64,13 +64,13 @@ def gen(seed, index):
     def tree(depth, has_traj):
         r = rng.random()
         if depth == 0 or r < 0.3:
-            d = rng.randint(1, 5) * unit
+            d = 0 if rng.random() < 0.08 else rng.randint(1, 5) * unit       # (a grace note / marker of length 0 carries a tempo too)
             tp, _ = tempo(has_traj, d)
             return ["L", d, tp], d
         kind = "P" if r > 0.75 else "S"
         kids, durs = [], []
         # decide this node's tempo after knowing its span: generate children with a provisional flag
-        n = rng.choice([1, 2, 2, 3])
+        n = rng.choice([1, 2, 2, 3, 0]) if depth >= 1 and rng.random() < 0.3 else rng.choice([1, 2, 2, 3])
         # first decide whether this node carries a trajectory
         provisional = has_traj
         node_traj = (rng.random() < p_traj) and (mixed or not has_traj)
@@ -78,8 +78,8 @@ def gen(seed, index):
             k, d = tree(depth - 1, has_traj or node_traj)
             kids.append(k)
             durs.append(d)
-        span = sum(durs) if kind == "S" else max(durs)
-        if steps and rng.random() < 0.5:
+        span = sum(durs) if kind == "S" else max(durs, default=0)
+        if steps and rng.random() < 0.5 and span > 0:
             tp = step_curve(span)
         elif node_traj:
             nn = rng.randint(2, 4)
